@@ -345,7 +345,38 @@ func genRawCases(r *Rng, n int, w *bufio.Writer) {
 		tx := genTx(r, true)
 		ser, _ := tx.Serialize()
 		var m []byte
-		switch r.Intn(9) {
+		switch r.Intn(10) {
+		case 9: // the length of the first input script written in a wider varint form, at the form boundaries
+			if len(tx.Inputs) == 0 || len(tx.Inputs) >= 0xfd {
+				m = ser
+				break
+			}
+			L := r.Pick(0, 1, 0xfc, 0xfd, 0xfe, 0xffff, 0xffff, 0x10000)
+			tx.Inputs[0].Script = r.Bytes(L)
+			ser, _ = tx.Serialize()
+			const off = 4 + 1 + 1 + 36 // version, flag, input count, outpoint
+			var canon, wide []byte
+			switch {
+			case L < 0xfd:
+				canon = []byte{byte(L)}
+			case L <= 0xffff:
+				canon = []byte{0xfd, byte(L), byte(L >> 8)}
+			default:
+				canon = []byte{0xfe, byte(L), byte(L >> 8), byte(L >> 16), byte(L >> 24)}
+			}
+			switch k := r.Intn(3); {
+			case k == 0 && L <= 0xffff:
+				wide = []byte{0xfd, byte(L), byte(L >> 8)}
+			case k <= 1:
+				wide = []byte{0xfe, byte(L), byte(L >> 8), byte(L >> 16), byte(L >> 24)}
+			default:
+				wide = []byte{0xff, byte(L), byte(L >> 8), byte(L >> 16), byte(L >> 24), 0, 0, 0, 0}
+			}
+			if len(ser) < off+len(canon) || !bytes.Equal(ser[off:off+len(canon)], canon) {
+				m = ser
+				break
+			}
+			m = append(append(append([]byte{}, ser[:off]...), wide...), ser[off+len(canon):]...)
 		case 0: // valid as is
 			m = ser
 		case 1: // truncation
